@@ -147,6 +147,8 @@ class Check(object):
         os.replace(tmp, p)
 
     def finish(self):
+        if not self.samples:
+            self.inconc("the check recorded no sample case (evidence would be invalid)")
         known = open_findings(self.prop)
         new = {}
         seen_known = {}
